@@ -983,6 +983,21 @@ func (s *Store[K, V]) processSecondary() {
 			item.shard.mu.RUnlock(tk)
 			if err != nil {
 				s.secondaryCache.HandleAsyncError(err)
+				// the policy has evicted this entry already: it must leave the map as
+				// well, or memory grows without bound while the secondary cache fails
+				if item.reason == EVICTED {
+					item.shard.mu.Lock()
+					deleted := item.shard.delete(item.entry)
+					item.shard.mu.Unlock()
+					if deleted {
+						s.policyMu.Lock()
+						if s.removalListener != nil {
+							s.removalListener(item.entry.key, item.entry.value, EVICTED)
+						}
+						s.postDelete(item.entry)
+						s.policyMu.Unlock()
+					}
+				}
 				verifPoint(vpSecDone)
 				continue
 			}
